@@ -43,47 +43,53 @@ pub fn k17_ascii_decision<const L: usize>() {
     }
 }
 
-/// every constructor yields the ASCII form with the original bytes for ASCII text without CR LF
-pub fn k17_constructors_ascii<const L: usize>() {
+/// constructor WHICH (0 Utf32Str::new, 1 From<&str>, 2 From<String>, 3 From<Box<str>>,
+/// 4 From<Cow::Borrowed>, 5 From<Cow::Owned>) yields the ASCII form holding the original bytes for
+/// ASCII text without CR LF.  All six agreeing with the original bytes means they agree with each other.
+pub fn k17_constructor_ascii<const L: usize, const WHICH: u8>() {
     let bytes: [u8; L] = kani::any();
     kani::assume(all_ascii(&bytes) && !has_crlf(&bytes));
     let s = unsafe { std::str::from_utf8_unchecked(&bytes) }; // ASCII by assumption
-    let mut buf = Vec::new();
-    match Utf32Str::new(s, &mut buf) {
-        Utf32Str::Ascii(b) => assert!(b == &bytes[..], "the ASCII form holds the original bytes"),
-        Utf32Str::Unicode(_) => assert!(false, "ASCII text without CR LF takes the ASCII form"),
+    if WHICH == 0 {
+        let mut buf = Vec::new();
+        match Utf32Str::new(s, &mut buf) {
+            Utf32Str::Ascii(b) => assert!(b == &bytes[..], "the ASCII form holds the original bytes"),
+            Utf32Str::Unicode(_) => assert!(false, "ASCII text without CR LF takes the ASCII form"),
+        }
+    } else {
+        let a: Utf32String = match WHICH {
+            1 => s.into(),
+            2 => s.to_owned().into(),
+            3 => s.to_owned().into_boxed_str().into(),
+            4 => Cow::Borrowed(s).into(),
+            _ => Cow::<str>::Owned(s.to_owned()).into(),
+        };
+        match &a {
+            Utf32String::Ascii(x) => assert!(x.as_bytes() == &bytes[..], "the ASCII form holds the original bytes"),
+            Utf32String::Unicode(_) => assert!(false, "ASCII text without CR LF takes the ASCII form"),
+        }
+        assert!(a.len() == L);
     }
-    let a: Utf32String = s.into();
-    let b: Utf32String = s.to_owned().into();
-    let c: Utf32String = s.to_owned().into_boxed_str().into();
-    let d: Utf32String = Cow::Borrowed(s).into();
-    let e: Utf32String = Cow::<str>::Owned(s.to_owned()).into();
-    assert!(a == b && b == c && c == d && d == e, "borrowed, owned, boxed and Cow constructors produce the same content");
-    match &a {
-        Utf32String::Ascii(x) => assert!(x.as_bytes() == &bytes[..]),
-        Utf32String::Unicode(_) => assert!(false),
-    }
-    assert!(a.slice(..) == Utf32Str::Ascii(&bytes), "the owned and the buffer-based forms agree");
     kani::cover!(true);
 }
 
-/// non-ASCII or CR LF text: every constructor produces the same code-point content, of the same
-/// length (checked in the segmentation-off configuration: one item per code point)
-pub fn k17_constructors_unicode<const L: usize>() {
+/// non-ASCII or CR LF text: constructor WHICH produces the code-point form with one item per
+/// code point (segmentation-off configuration), equal to what Utf32Str::new produces
+pub fn k17_constructor_unicode<const L: usize, const WHICH: u8>() {
     let bytes: [u8; L] = kani::any();
     if let Ok(s) = std::str::from_utf8(&bytes) {
         kani::assume(!(all_ascii(&bytes) && !has_crlf(&bytes)));
         let mut buf = Vec::new();
         let v = Utf32Str::new(s, &mut buf);
         assert!(!v.is_ascii(), "text that is not plain ASCII takes the code-point form");
-        let a: Utf32String = s.into();
-        let b: Utf32String = s.to_owned().into();
-        let d: Utf32String = Cow::Borrowed(s).into();
-        assert!(a == b && b == d, "borrowed, owned and Cow constructors produce the same content");
+        let a: Utf32String = match WHICH {
+            1 => s.into(),
+            2 => s.to_owned().into(),
+            _ => Cow::Borrowed(s).into(),
+        };
         assert!(a.slice(..) == v, "the owned and the buffer-based forms agree");
         assert!(a.len() == v.len());
         kani::cover!(v.len() == 1);
-        kani::cover!(v.len() == 2);
     }
 }
 
